@@ -316,8 +316,11 @@ def build_model(prop):
 
 def run_model(prop, cases_path, out_path, args=(), timeout=1800):
     with open(cases_path, "rb") as fin, open(out_path, "wb") as fout:
-        p = subprocess.run(["%s/model_%s" % (BIN, prop)] + list(args), stdin=fin, stdout=fout,
-                           stderr=subprocess.PIPE, timeout=timeout)
+        # the extracted programs recurse over Coq lists without tail calls: inputs of a megabyte and more need a deep stack
+        import shlex
+        cmd = "ulimit -s unlimited 2>/dev/null || ulimit -s 1000000 2>/dev/null; exec " + \
+              " ".join(shlex.quote(a) for a in ["%s/model_%s" % (BIN, prop)] + list(args))
+        p = subprocess.run(cmd, shell=True, stdin=fin, stdout=fout, stderr=subprocess.PIPE, timeout=timeout)
     if p.returncode != 0:
         raise BuildError("model driver for %s failed: %s" % (prop, p.stderr.decode()[-2000:]))
 
